@@ -196,3 +196,64 @@ def _whole_shape_guard(g):
             return False
         return Pred(pred, f"shape({base})")
     return mk(s.base), mk(b.base)
+
+
+# ---------------------------------------------------------------------------------------------------------------------
+# accept-only guard: `subject - bound >= 1` (e.g. n > p) is never refused, also when the refusing test compares the
+# subject with `bound + c` / `bound - c` (affine in the bound with an integer literal, possibly through a phi of such forms)
+def _affine_offsets(term, bound):
+    """offsets c such that an alternative of `term` is bound + c; None if some alternative is not of that form"""
+    from .prov import alts
+    out = []
+    for a in alts(term):
+        if bound(a):
+            out.append(0)
+        elif a[0] == "bin" and a[1] in ("Add", "AddWithOverflow", "AddUnchecked") and bound(a[2]) and a[3][0] == "int":
+            out.append(int(a[3][1]))
+        elif a[0] == "bin" and a[1] in ("Add", "AddWithOverflow", "AddUnchecked") and bound(a[3]) and a[2][0] == "int":
+            out.append(int(a[2][1]))
+        elif a[0] == "bin" and a[1] in ("Sub", "SubWithOverflow", "SubUnchecked") and bound(a[2]) and a[3][0] == "int":
+            out.append(-int(a[3][1]))
+        elif a[0] == "field" and a[2] == "0" and a[1][0] == "bin" and a[1][1].endswith("WithOverflow"):
+            o = _affine_offsets(a[1], bound)
+            if o is None:
+                return None
+            out.extend(o)
+        else:
+            return None
+    return out
+
+
+def accepts_above(ck, prog, fn, subject, bound, inst, want="Err", rule="E1-guard"):
+    """No refusing edge of `fn` tests `subject` against `bound + c` in a way that refuses some subject - bound >= 1."""
+    from .guards import outcome_ok, edge_outcomes, NEG, FLIP
+    try:
+        b = prog.one(fn)
+    except Exception as e:
+        ck.violation(rule, inst, fn, "", expected="anchor exists", found=f"anchor vanished: {e}")
+        return
+    cx = BodyCtx.of(b)
+    n = 0
+    for c in cx.cmps:
+        for (L, R, rel) in ((c.lhs, c.rhs, c.rel), (c.rhs, c.lhs, FLIP[c.rel])):
+            if not subject(L):
+                continue
+            offs = _affine_offsets(R, bound)
+            if not offs:
+                continue
+            for edge_rel, dst in ((rel, c.true_bb), (NEG[rel], c.false_bb)):
+                outs = cx.edges.get((c.bb, dst))
+                if outs is None:
+                    outs = edge_outcomes(b, c.bb, dst, cx.res)
+                if not outcome_ok(outs, want):
+                    continue
+                n += 1
+                # the edge refuses every d = subject - bound with `d edge_rel off`
+                bad = [o for o in offs if {"<=": o >= 1, "<": o >= 2, "==": o >= 1, ">": True, ">=": True, "!=": True}[edge_rel]]
+                if bad:
+                    ck.violation(rule, inst, b.path, c.where, expected="every input with subject > bound is let through",
+                                 found=f"`{render(L)} {edge_rel} {render(R)}` refuses with {want}: also inputs with subject - bound >= 1 (offset {bad[0]:+d})")
+                else:
+                    ck.ok(rule, inst, b.path, c.where, f"`{render(L)} {edge_rel} {render(R)}` refuses only subject <= bound")
+    if n == 0:
+        ck.note(f"{inst}: no refusing comparison of the subject with the bound: nothing is refused (no instance)")
